@@ -350,14 +350,29 @@ def restart_step():
 
 
 # ---- running the implementation ---------------------------------------------------------------
-def api_binary(ctx, race=False):
+def fs_rewritten(ctx):
+    """internal/store/dir.go with its mutating filesystem calls redirected to the counting shim (C09); the list of
+    rewritten call sites is kept for the evidence"""
+    out = os.path.join(ctx.work, "dir_vfs.go")
+    run_gofacts()
+    rc, log = sh([os.path.join(VERIF, "bin", "gofacts"), "-fsrewrite", os.path.join(REPO, "internal/store/dir.go"), out], timeout=60)
+    if rc != 0:
+        raise BuildError("fsrewrite failed: " + log[-800:])
+    ctx.fs_sites = [l for l in log.strip().split("\n") if l and not l.startswith("WARNING")]
+    return out
+
+
+def api_binary(ctx, race=False, vfs=False):
     ov = {
         "verif_api_driver_test.go": os.path.join(VERIF, "harness/inpkg/api_driver_test.go"),
         "verif_conf_driver_test.go": os.path.join(VERIF, "harness/inpkg/conf_driver_test.go"),
         "internal/store/verif_hooks.go": os.path.join(VERIF, "harness/hooks/store_verif.go"),
+        "internal/store/verif_vfs.go": os.path.join(VERIF, "harness/hooks/vfs_verif.go"),
         "internal/cache/verif_hooks.go": os.path.join(VERIF, "harness/hooks/cache_verif.go"),
     }
-    return go_test_binary(ctx, ".", ov, "api.test" + (".race" if race else ""), race=race)
+    if vfs:
+        ov["internal/store/dir.go"] = fs_rewritten(ctx)
+    return go_test_binary(ctx, ".", ov, "api%s%s.test" % (".vfs" if vfs else "", ".race" if race else ""), race=race)
 
 
 def run_api(ctx, binp, cases, name="api", workers=8, timeout=3000):
